@@ -404,7 +404,10 @@ class BaseGroupBy(ABC):
         "Number each item in each group from 0 to the length of that group - 1"
     )
     def cumcount(self) -> pd.Series:
-        return self._grouper.cumcount(self._obj)
+        # rows are numbered whatever the values are: the values must not be passed as the mask
+        result = self._grouper.cumcount()
+        result.index = self._obj.index
+        return result
 
     def ema(
         self,
